@@ -37,11 +37,14 @@ func (srv *Server) Authenticate(next http.Handler) http.Handler {
 	return http.HandlerFunc(func(w http.ResponseWriter, r *http.Request) {
 		w.Header().Set("Content-Type", hap.HTTPContentTypeHAPJson)
 		sess := srv.context.GetSessionForRequest(r)
-		if sess == nil {
+		// Every connection has a session. A connection is authenticated when pair verify
+		// was successful – only then the session has a cryptographer (the connection is encrypted).
+		if sess == nil || sess.Encrypter() == nil {
 			w.WriteHeader(470) // this custom status code indicates an error
 			if err := WriteJSON(w, r, &ErrResponse{Status: hap.StatusInsufficientPrivileges}); err != nil {
 				log.Debug.Println(err)
 			}
+			return
 		}
 
 		next.ServeHTTP(w, r)
